@@ -36,11 +36,15 @@ TrTrace == /\ Ev.ev = "trace" /\ Sufficient
            /\ Ev.inok /\ Ev.nttok
            \* the level is the smaller of the two; when nothing is to be summed (gap 1) the call is a plain copy of the input
            /\ (Ev.lvlout = Ev.lvlmin \/ (TraceGap(Ev.logn, Ev.lgn, Ev.ci) = 1 /\ Ev.lvlout = Ev.lvlin))
+\* PartialTracesSum / InnerFunction(+) on the rlwe evaluator, read in the coefficient domain
+TrCSum == /\ Ev.ev = "csum" /\ Sufficient
+          /\ Ev.out = SumAutos(Ev.v, Ev.off, Ev.n, Ev.m, Ev.ci)
+          /\ Ev.inok
 \* documented refusals (n*batch > slots, non-positive arguments, ...): an error, not a panic
 TrRefuse == /\ Ev.ev = "refuse" /\ Ev.err /\ ~Ev.panic
 
 TraceNext == /\ l <= Len(Trace) /\ l' = l + 1
-             /\ (TrGalEl \/ TrRot \/ TrSwap \/ TrHoisted \/ TrSum \/ TrTrace \/ TrRefuse)
+             /\ (TrGalEl \/ TrRot \/ TrSwap \/ TrHoisted \/ TrSum \/ TrTrace \/ TrCSum \/ TrRefuse)
 TraceInit == l = 1 /\ TLCSet(1, 1)
 TraceSpec == TraceInit /\ [][TraceNext]_l
 Progress == TLCSet(1, IF TLCGet(1) > l THEN TLCGet(1) ELSE l)
